@@ -626,6 +626,44 @@ func runC13(c c13Case, st *verifkit.Stats) *verifkit.Failure {
 		got := set.List()
 		// For ext-community sets Remove is documented nowhere to be sub-type aware; only
 		// Append/Replace list content is asserted there.
+		if c.Kind == 1 && e.Op == 1 {
+			// whatever Remove takes "the same member" to mean, it cannot invent members, and a member whose pattern
+			// text (behind the sub-type prefix) is not named at all stays what it was
+			left := map[string]int{}
+			for _, b := range before {
+				left[b]++
+			}
+			for _, g := range got {
+				if left[g] == 0 {
+					return verifkit.Failf("edit-list", "edit %d remove %q from %q: List()=%q contains %q, which was not a member", i, argList, before, got, g)
+				}
+				left[g]--
+			}
+			body := func(s string) string {
+				if _, b, ok := strings.Cut(s, ":"); ok {
+					return b
+				}
+				return s
+			}
+			have := map[string]int{}
+			for _, g := range got {
+				have[g]++
+			}
+			for _, b := range before {
+				named := false
+				for _, a := range argList {
+					if body(a) == body(b) {
+						named = true
+					}
+				}
+				if !named {
+					if have[b] == 0 {
+						return verifkit.Failf("edit-list", "edit %d remove %q from %q: member %q is gone although nothing names its pattern (List()=%q)", i, argList, before, b, got)
+					}
+					have[b]--
+				}
+			}
+		}
 		if c.Kind != 1 || e.Op != 1 {
 			if strings.Join(got, "\x00") != strings.Join(want, "\x00") {
 				return verifkit.Failf("edit-list", "edit %d op=%d arg=%q on %q: List()=%q, want %q", i, e.Op, argList, before, got, want)
